@@ -52,6 +52,8 @@ def match_known(prop, failure, known):
             return k
         if m.get("tag_item_starts_with_blank") and failure.get("tag_blank"):
             return k
+        if m.get("step_line_is_keyword_prefix_without_its_blank") and failure.get("f8"):
+            return k
     return None
 
 
@@ -317,7 +319,7 @@ def hang_probe(docs, per_doc_timeout=8.0):
     import subprocess, time, threading, queue
     hung = []
     todo = list(docs)
-    while todo:
+    while todo and len(hung) < 3:
         p = subprocess.Popen(["/venv/bin/python", "-c", HANG_PROBE % core.VERIF], stdin=subprocess.PIPE,
                              stdout=subprocess.PIPE, stderr=subprocess.DEVNULL, text=True,
                              env={**os.environ, "PYTHONPATH": core.VERIF + ":" + os.path.join(core.REPO, "python")})
@@ -346,6 +348,18 @@ def hang_probe(docs, per_doc_timeout=8.0):
     return hung
 
 
+def hang_suspects():
+    """inputs built to make each regular expression of the code backtrack"""
+    suspects = []
+    for n in (30, 60):
+        suspects += ["# language: " + "a" * n + "1\nFeature: f\n", "#language:" + "a-" * n + "!\n", "# language: " + "a_" * n + " x\n",
+                     "|" + "\\" * n + "\n", "| " + " " * n + "x" + " " * n + "\n", "@" + "a" * n + " #" + " " * n + "\n",
+                     "@a" + " @b" * n + " c\n", "Feature: f\n  Scenario: s\n    Given a\n      |" + " a |" * n + "\n",
+                     " " * n + "#" + " " * n + "language" + " " * n + ":" + " " * n + "en" + " " * n + "x\n",
+                     "Feature:" + " " * (n * 4) + "\n", "Feature: f\n  Scenario Outline: <" + "a" * n + "\n    Given <" + "(" * n + ">\n    Examples:\n      | " + "(" * n + " |\n      | " + "\\\\" * n + " |\n"]
+    return suspects
+
+
 def run_C01(ctx: Ctx) -> Result:
     rng = ctx.rng
     docs = streams.corpus_docs() + streams.doc_mix(rng, ctx.n(1200, 12000)) + unicode_soup(rng, ctx.n(600, 6000))
@@ -357,12 +371,19 @@ def run_C01(ctx: Ctx) -> Result:
     # nothing hangs: every document is first parsed in a child process under a watchdog (a C-level
     # regular-expression loop cannot be interrupted in-process); documents that hang are violations
     # and are kept away from the in-process streams
-    hung_docs = hang_probe(docs)
-    docs = [d for d in docs if d not in set(hung_docs)]
+    suspects = hang_suspects()
+    hung_docs = hang_probe(suspects + docs)
+    if hung_docs:
+        # the tree hangs on some inputs: report them and do NOT run the in-process streams (they could hang too)
+        res = Result()
+        res.stats["hang_probe_inputs"] = len(suspects) + len(docs)
+        for src in hung_docs[:5]:
+            res.note({"source": src}, True)
+            res.fail("hang", {"source": src, "stop": False, "default_dialect": "en"}, "no result within 8 s", "a result",
+                     "parsing this document does not terminate within 8 seconds (pathological matching work)")
+        return res
     res = streams.parse_stream(docs, proj_outcome, known=ctx.known_seen, dialects=("en",))
-    for src in hung_docs:
-        res.fail("hang", {"source": src, "stop": False, "default_dialect": "en"}, "no result within 8 s", "a result",
-                 "parsing this document does not terminate within 8 seconds")
+    res.stats["hang_probe_inputs"] = len(suspects) + len(docs)
     # direct oracle on the implementation: outcome form and linear work
     checked = 0
     for src in docs:
@@ -391,19 +412,6 @@ def run_C01(ctx: Ctx) -> Result:
             if bad:
                 res.fail("parse", case, proj_outcome(o), "allowed outcome form", bad)
     res.stats["outcome_form_checked"] = checked
-    # nothing hangs: inputs built to make each modelled regular expression backtrack, in a child process
-    suspects = []
-    for n in (30, 60):
-        suspects += ["# language: " + "a" * n + "1\nFeature: f\n", "#language:" + "a-" * n + "!\n", "# language: " + "a_" * n + " x\n",
-                     "|" + "\\" * n + "\n", "| " + " " * n + "x" + " " * n + "\n", "@" + "a" * n + " #" + " " * n + "\n",
-                     "@a" + " @b" * n + " c\n", "Feature: f\n  Scenario: s\n    Given a\n      |" + " a |" * n + "\n",
-                     " " * n + "#" + " " * n + "language" + " " * n + ":" + " " * n + "en" + " " * n + "x\n",
-                     "Feature:" + " " * (n * 4) + "\n", "Feature: f\n  Scenario Outline: <" + "a" * n + "\n    Given <" + "(" * n + ">\n    Examples:\n      | " + "(" * n + " |\n      | " + "\\\\" * n + " |\n"]
-    hung = hang_probe(suspects)
-    res.stats["hang_probe_inputs"] = len(suspects)
-    for src in hung:
-        res.fail("parse", {"source": src, "stop": False, "default_dialect": "en"}, "no result within 8 s", "a result",
-                 "parsing this short document does not terminate within 8 seconds (pathological matching work)")
     res.merge(streams.pickles_stream(streams.doc_mix(rng, ctx.n(300, 3000), noisy=0.1, mutated=0.1),
                                      lambda o: {k: v for k, v in o.items() if k == "crash"}))
     res.merge(streams.events_stream(rng, ctx.n(150, 1500),
@@ -1067,7 +1075,9 @@ def transform_cases(rng, src):
 def run_C16(ctx: Ctx) -> Result:
     res = Result()
     rng = ctx.rng
-    docs = [d for d in streams.corpus_docs() if "\r" not in d.replace("\r\n", "")] + \
+    explicit = ["# language: fr\nFonctionnalité: f\n  Scénario: s\n    Etant donné que\n    Alors ok\n",
+                "Feature: f\n\n  @t\n  # c\n  Scenario Outline: o\n    Given a <x>\n      \"\"\"\n      doc\n      \"\"\"\n    @e\n    # c2\n    @e2\n    Examples: e\n      | x |\n      | 1 |\n  Rule: r\n    Background: b\n      * s\n    Example: e\n      Then t\n        | a |\n"]
+    docs = explicit + [d for d in streams.corpus_docs() if "\r" not in d.replace("\r\n", "")] + \
         [d for d in streams.doc_mix(rng, ctx.n(500, 5000), noisy=0.2, mutated=0.2) if "\r" not in d.replace("\r\n", "")]
 
     def full(src):
@@ -1123,7 +1133,7 @@ def run_C16(ctx: Ctx) -> Result:
         structural = {"FeatureLine", "RuleLine", "BackgroundLine", "ScenarioLine", "ExamplesLine", "StepLine", "TagLine", "TableRow"}
         cand = [ln for ln, k in kind_of_line.items() if k in structural and ln <= len(lines)]
         rng.shuffle(cand)
-        for ln in cand[: ctx.n(2, 6)]:
+        for ln in (cand if src in explicit else cand[: ctx.n(2, 6)]):
             # trailing blanks
             t = "\n".join(lines[: ln - 1] + [lines[ln - 1] + "  \t"] + lines[ln:])
             if src != lf:
@@ -1132,6 +1142,14 @@ def run_C16(ctx: Ctx) -> Result:
             if o != base:
                 res.fail("metamorphic", {**case, "transform": f"trailing-blanks@{ln}", "transformed": t}, o, base,
                          f"trailing blanks on line {ln} ({kind_of_line[ln]}) changed the result: {first_diff(o, base)}")
+                # known finding F8: the trimmed step line plus a blank starts with a (longer) step keyword
+                lang = (base.get("ok", {}).get("feature") or {}).get("language", "en")
+                spec_ = impl.dialects().get(lang, {})
+                kws = sum((spec_.get(r, []) for r in ("given", "when", "then", "and", "but")), [])
+                st = lines[ln - 1].strip()
+                if kind_of_line[ln] == "StepLine" and any((st + " ").startswith(kw) and not st.startswith(kw) for kw in kws):
+                    res.failures[-1]["f8"] = True
+                    ctx.known_seen.add("F8")
             # more indentation: only columns change
             t = "\n".join(lines[: ln - 1] + ["   " + lines[ln - 1]] + lines[ln:])
             o, _ = full(t)
@@ -1168,6 +1186,10 @@ def run_C16(ctx: Ctx) -> Result:
     from gherkin.stream.source_events import source_event
     for k, src in enumerate(docs[: ctx.n(60, 600)]):
         p = os.path.join(d, f"f{k}.feature")
+        try:
+            src.encode("utf8")
+        except UnicodeEncodeError:
+            continue        # lone surrogates cannot be stored in a UTF-8 file
         with open(p, "w", encoding="utf8", newline="") as fh:
             fh.write(src)
         ev = source_event(p)
